@@ -1,1 +1,364 @@
-pub fn cmd(_args: &[String]) {}
+//! Engine T: the "from another thread" clause of C01 (and C02 under concurrent wake-ups).
+//!
+//! The combinator, its scripted children, the reference models and the ownership accounting all live on
+//! the main thread exactly as in engine A.  What changes: the waker of every `PendLater` step is handed
+//! to a pool of firing threads through a shared table; those threads invoke it (by reference, by value,
+//! twice), keep stale clones and re-invoke them later — concurrently with further polls of the combinator
+//! and with its drop.  The root waker only records `(epoch)` in the shared table and signals the main thread.
+//!
+//! Verdicts are logical, never timed: the execution is *thread-quiescent* when the table is empty and no
+//! firing thread holds a waker; if at that point the combinator is Pending and the current root waker has
+//! not been invoked, the usual progress oracle I6 decides (every `PendLater` child has been woken by then).
+//! Run natively (stress), under Miri (data races, deadlocks: definitive) and under ThreadSanitizer.
+
+use crate::child::*;
+use crate::dut::*;
+use crate::engine_a::{self, CaseA, ExecOut, Profile};
+use crate::model;
+use crate::world::*;
+use std::collections::VecDeque;
+use std::sync::atomic::Ordering;
+use std::sync::Arc;
+use std::task::{Context, Poll, Wake, Waker};
+use std::time::Duration;
+
+pub struct TRoot {
+    sh: Arc<TShared>,
+    epoch: usize,
+}
+impl Wake for TRoot {
+    fn wake(self: Arc<Self>) {
+        self.wake_by_ref()
+    }
+    fn wake_by_ref(self: &Arc<Self>) {
+        // called by the library while it holds its readiness mutex; the harness never calls into the library
+        // while holding `t`, so the lock order readiness -> t is the only one that exists
+        let mut t = self.sh.t.lock().unwrap();
+        if self.epoch >= t.cur_epoch {
+            t.root_wakes += 1;
+        } else {
+            t.root_wakes_stale += 1;
+        }
+        if self.epoch > t.woken_epoch {
+            t.woken_epoch = self.epoch;
+        }
+        drop(t);
+        self.sh.cv_main.notify_all();
+    }
+}
+
+fn xs(s: &mut u64) -> u64 {
+    *s ^= *s << 13;
+    *s ^= *s >> 7;
+    *s ^= *s << 17;
+    *s
+}
+
+fn worker(sh: Arc<TShared>, mut rng: u64) {
+    let mut stale: Vec<Waker> = vec![];
+    let mut t = sh.t.lock().unwrap();
+    loop {
+        if !t.wakers.is_empty() {
+            let i = (xs(&mut rng) % t.wakers.len() as u64) as usize;
+            let (_cid, wk) = t.wakers.swap_remove(i);
+            t.in_flight += 1;
+            drop(t);
+            for _ in 0..(xs(&mut rng) % 3) {
+                std::thread::yield_now();
+            }
+            let mode = xs(&mut rng) % 6;
+            let restale = !stale.is_empty() && xs(&mut rng) % 3 == 0;
+            let si = if stale.is_empty() { 0 } else { (xs(&mut rng) % stale.len() as u64) as usize };
+            IN_WAKE.store(true, Ordering::Relaxed);
+            let r = std::panic::catch_unwind(std::panic::AssertUnwindSafe(|| {
+                match mode {
+                    0 => wk.clone().wake(),
+                    1 => {
+                        wk.wake_by_ref();
+                        wk.wake_by_ref();
+                    }
+                    _ => wk.wake_by_ref(),
+                }
+                if restale {
+                    stale[si].wake_by_ref();
+                }
+            }));
+            IN_WAKE.store(false, Ordering::Relaxed);
+            PROGRESS.fetch_add(1, Ordering::Relaxed);
+            if stale.len() < 6 {
+                stale.push(wk);
+            } else {
+                stale[si] = wk;
+            }
+            t = sh.t.lock().unwrap();
+            t.in_flight -= 1;
+            t.fires += 1 + (mode == 1) as u64;
+            if restale {
+                t.fires_stale += 1;
+            }
+            if let Err(p) = r {
+                let m = panic_msg(&p);
+                t.wake_panics.push(m);
+            }
+            sh.cv_main.notify_all();
+        } else if t.stop {
+            break;
+        } else {
+            t = sh.cv_workers.wait(t).unwrap();
+        }
+    }
+    drop(t);
+    // the combinator is gone by now: wakers that outlive it must stay harmless, from any thread
+    let mut after = 0u64;
+    let mut panics = vec![];
+    for wk in stale {
+        let r = std::panic::catch_unwind(std::panic::AssertUnwindSafe(|| wk.wake()));
+        after += 1;
+        if let Err(p) = r {
+            panics.push(panic_msg(&p));
+        }
+    }
+    let mut t = sh.t.lock().unwrap();
+    t.fires_stale += after;
+    t.wake_panics.extend(panics);
+}
+
+pub fn profile(thorough: bool, c02: bool) -> Profile {
+    let base = engine_a::profile("ALL", thorough);
+    Profile {
+        name: "T",
+        max_n: if cfg!(miri) { 3 } else { 5 },
+        nested_pct: 30,
+        never_pct: 6,
+        // the firing threads do the cross / stale / repeated fires for real
+        midfire_pct: 0,
+        stale_pct: 0,
+        spurious: 3,
+        cancel_pct: if c02 { 45 } else { 15 },
+        panic_pct: if c02 { 15 } else { 0 },
+        max_items: 3,
+        max_pend: 3,
+        big_lens: vec![],
+        big_pct: 0,
+        ..base
+    }
+}
+
+/// One execution with `nthreads` firing threads.
+pub fn run_case(p: &Profile, case: &CaseA, case_seed: u64, nthreads: usize) -> ExecOut {
+    let mut out = ExecOut { desc: format!("threads={nthreads} {}", engine_a::describe_case(case)), key: format!("{}/{}/{}", case.shape.fam.name(), case.shape.cont.name(), case.shape.kids.len()), ..Default::default() };
+    let (polls0, pend0) = w(|w| (w.st.root_polls, w.st.child_pending));
+    let sh = Arc::new(TShared::new());
+    w(|w| {
+        w.phase = Phase::Constructing;
+        w.root = Some(0);
+        w.threaded = Some(sh.clone());
+        w.midfire_pct = 0;
+    });
+    let mut b = Builder { scripts: VecDeque::from(case.leaves.clone()) };
+    let built = std::panic::catch_unwind(std::panic::AssertUnwindSafe(|| if case.shape.fam.is_stream() { Root::S(b.build_str(&case.shape, None)) } else { Root::F(b.build_fut(&case.shape, None)) }));
+    w(|w| w.phase = Phase::Idle);
+    let root_prop = case.shape.fam.prop();
+    let mut root = match built {
+        Ok(r) => Some(r),
+        Err(pn) => {
+            let m = panic_msg(&pn);
+            w(|w| w.violate(&[root_prop], format!("constructing the combinator panicked: {m}")));
+            None
+        }
+    };
+    let mut received: Vec<Val> = vec![];
+    let mut cancelled = false;
+    let mut fires_total = 0u64;
+    std::thread::scope(|s| {
+        for k in 0..nthreads {
+            let sh2 = sh.clone();
+            let seed = crate::mix(case_seed, 0x7EAD + k as u64);
+            s.spawn(move || worker(sh2, seed));
+        }
+        let mut spurious_left = case.spurious;
+        let mut steps = 0usize;
+        let mut polls = 0usize;
+        let mut epoch = 0usize;
+        let mut waits = 0u64;
+        while root.is_some() {
+            steps += 1;
+            PROGRESS.fetch_add(1, Ordering::Relaxed);
+            if steps > engine_a::STEP_CAP {
+                out.inconclusive = Some("harness step budget exceeded".into());
+                break;
+            }
+            let rl = w(|w| w.root_last);
+            if matches!(rl, RootLast::Final | RootLast::Panicked) {
+                break;
+            }
+            if Some(polls) == case.cancel_at || (case.max_yields.is_some() && Some(received.len()) >= case.max_yields) {
+                cancelled = true;
+                w(|w| w.st.cancels += 1);
+                break;
+            }
+            let (woken, quiescent) = {
+                let t = sh.t.lock().unwrap();
+                (epoch > 0 && t.woken_epoch >= epoch, t.wakers.is_empty() && t.in_flight == 0)
+            };
+            let runnable = matches!(rl, RootLast::NotPolled | RootLast::Item) || (rl == RootLast::Pending && woken);
+            let mut spurious = false;
+            if !runnable {
+                if quiescent {
+                    break; // thread-quiescent and nobody woke the task
+                }
+                if spurious_left > 0 && w(|w| w.chance(15)) {
+                    spurious = true;
+                    spurious_left -= 1;
+                    w(|w| w.st.spurious_polls += 1);
+                } else {
+                    // wait for a wake-up of the current root waker or for thread-quiescence (logical condition;
+                    // the timeout only bounds one wait so that a stall is seen by the process watchdog)
+                    waits += 1;
+                    let t = sh.t.lock().unwrap();
+                    if !(t.woken_epoch >= epoch || (t.wakers.is_empty() && t.in_flight == 0)) {
+                        let _ = sh.cv_main.wait_timeout(t, Duration::from_millis(50)).unwrap();
+                    }
+                    continue;
+                }
+            } else if w(|w| w.chance(30)) {
+                // let more fires land before the task runs
+                std::thread::yield_now();
+            }
+            polls += 1;
+            epoch += 1;
+            let waker = Waker::from(Arc::new(TRoot { sh: sh.clone(), epoch }));
+            {
+                let mut t = sh.t.lock().unwrap();
+                t.cur_epoch = epoch;
+            }
+            w(|w| {
+                w.root_polls += 1;
+                w.st.root_polls += 1;
+                w.parent_cur = epoch;
+                w.parent_woken = false;
+                w.phase = Phase::Polling;
+                w.injected_seen = false;
+                let n = w.root_polls;
+                w.ev(Ev::ExecPoll { n, waker: epoch, spurious });
+            });
+            let mut cx = Context::from_waker(&waker);
+            let r = std::panic::catch_unwind(std::panic::AssertUnwindSafe(|| match root.as_mut().unwrap() {
+                Root::F(f) => match f.as_mut().poll(&mut cx) {
+                    Poll::Pending => (Res::Pend, None),
+                    Poll::Ready(Ok(v)) => (Res::Ok(v.id), Some(v)),
+                    Poll::Ready(Err(v)) => (Res::Err(v.id), Some(v)),
+                },
+                Root::S(s) => match s.as_mut().poll_next(&mut cx) {
+                    Poll::Pending => (Res::Pend, None),
+                    Poll::Ready(Some(v)) => (Res::Item(v.id), Some(v)),
+                    Poll::Ready(None) => (Res::End, None),
+                },
+            }));
+            drop(waker);
+            match r {
+                Ok((res, val)) => {
+                    if let Some(v) = val {
+                        v.check_live("executor");
+                        received.push(v);
+                    }
+                    let woken_now = sh.t.lock().unwrap().woken_epoch >= epoch;
+                    w(|w| {
+                        w.phase = Phase::Idle;
+                        w.poll_stack.clear();
+                        w.parent_woken = woken_now;
+                        w.root_last = match res {
+                            Res::Pend => RootLast::Pending,
+                            Res::Item(_) => RootLast::Item,
+                            _ => RootLast::Final,
+                        };
+                        if res == Res::Pend {
+                            w.st.root_pending += 1;
+                        }
+                        w.ev(Ev::ExecRet(res.clone()));
+                        if res == Res::Pend {
+                            model::i2_check(w);
+                        }
+                        // self-wakes happened on this thread during the poll: the current root waker must have fired
+                        model::i1_check(w, "after poll (threads)");
+                    });
+                }
+                Err(pn) => {
+                    let injected = pn.is::<Injected>();
+                    let m = panic_msg(&pn);
+                    w(|w| {
+                        w.phase = Phase::Idle;
+                        let fam = w.poll_stack.iter().rev().find(|c| w.ch[**c].kind == Kind::Node).map(|c| w.ch[*c].fam);
+                        w.poll_stack.clear();
+                        w.root_last = RootLast::Panicked;
+                        w.ev(Ev::ExecRet(Res::Panicked));
+                        if !injected {
+                            let prop = fam.map(|f| f.prop()).unwrap_or(root_prop);
+                            w.violate(&[prop], format!("poll panicked (not an injected panic): {m}"));
+                        }
+                    });
+                }
+            }
+        }
+        let rl = w(|w| w.root_last);
+        if !cancelled && out.inconclusive.is_none() && rl == RootLast::Pending {
+            // thread-quiescent: every waker registered by a PendLater step has been invoked (the call returned)
+            let woken_now = sh.t.lock().unwrap().woken_epoch >= epoch;
+            w(|w| {
+                w.parent_woken = woken_now;
+                for c in w.ch.iter_mut() {
+                    if c.later_outstanding {
+                        c.later_outstanding = false;
+                        c.latest_woken = true;
+                    }
+                }
+                if !woken_now {
+                    model::i1_check(w, "thread-quiescent");
+                    model::i6_check(w);
+                }
+            });
+        }
+        w(|w| w.st.thread_waits += waits);
+        // drop the combinator while the firing threads may still hold / invoke wakers
+        engine_a::finish(&mut out, root.take().map(|r| Box::new(move || drop(r)) as Box<dyn FnOnce()>), std::mem::take(&mut received), polls0, pend0, cancelled);
+        {
+            let mut t = sh.t.lock().unwrap();
+            t.stop = true;
+        }
+        sh.cv_workers.notify_all();
+    });
+    // workers have exited
+    let t = sh.t.lock().unwrap();
+    fires_total += t.fires;
+    let mut extra: Vec<Violation> = vec![];
+    for m in &t.wake_panics {
+        extra.push(Violation { props: vec!["C01"], msg: format!("invoking a waker from another thread panicked: {m}") });
+    }
+    if t.in_flight != 0 {
+        extra.push(Violation { props: vec!["C01"], msg: "a firing thread exited while holding a waker (harness bug?)".into() });
+    }
+    w(|w| {
+        w.st.thread_fires += t.fires;
+        w.st.thread_fires_stale += t.fires_stale;
+        w.st.thread_root_wakes += t.root_wakes;
+        w.st.thread_root_wakes_stale += t.root_wakes_stale;
+        w.threaded = None;
+    });
+    drop(t);
+    out.viol.extend(extra);
+    out.nontrivial = out.nontrivial && fires_total >= 1;
+    let _ = p;
+    out
+}
+
+pub fn run(prop: &str, thorough: bool, case_seed: u64) -> ExecOut {
+    let p = profile(thorough, prop == "C02");
+    reset(Src::Rng(case_seed), true);
+    let (case, nthreads) = w(|w| {
+        w.record_decisions = false;
+        w.midfire_pct = 0;
+        let c = engine_a::gen_case(w, &p);
+        (c, 1 + w.below(3))
+    });
+    run_case(&p, &case, case_seed, nthreads)
+}
